@@ -733,8 +733,9 @@ class _ActionSubCommands(_SubParsersAction):
         if fail_no_subcommand:
             if subcommand is None and not (fail_no_subcommand and action._required):  # type: ignore[attr-defined]
                 return None, None
-            if action._required and subcommand not in action._name_parser_map:  # type: ignore[attr-defined]
-                # If subcommand is required and no subcommand is provided,
+            if subcommand not in action._name_parser_map:  # type: ignore[attr-defined]
+                # If subcommand is required and no subcommand is provided, or the
+                # given value (including falsy ones like "") is not a subcommand,
                 # present the user with a friendly error message to remind them of
                 # the available subcommands and to select one.
                 available_subcommands = list(action._name_parser_map.keys())
@@ -742,9 +743,8 @@ class _ActionSubCommands(_SubParsersAction):
                     candidate_subcommands_str = "{" + ",".join(available_subcommands) + "}"
                 else:
                     candidate_subcommands_str = "{" + ",".join(available_subcommands[:5]) + ", ...}"
-                raise NSKeyError(
-                    f'expected "{dest}" to be one of {candidate_subcommands_str}, but it was not provided.'
-                )
+                given = "it was not provided" if subcommand is None else f"got {subcommand!r}"
+                raise NSKeyError(f'expected "{dest}" to be one of {candidate_subcommands_str}, but {given}.')
 
         return subcommand_keys, [action._name_parser_map.get(s) for s in subcommand_keys]  # type: ignore[misc]
 
